@@ -280,6 +280,14 @@ def transforms_targets():
                       pre_methods=[("__init__", {"xp": ModV("xp"), "dtype": NoneV()}, None),
                                    ("fit", {"x": V("xfit")}, {"x.mean(0)": V("mean"), "x.std(0)": V("std")})],
                       params={arg: V(arg)}, outputs={"y": "return[0]", "logj": "return[1]"}))
+    # the same object fitted TWICE (Aspire.fit called again, SMC refits of a preconditioning flow): it must be the transform of the last fit
+    for m, arg in (("forward", "x"), ("inverse", "y")):
+        T.append(dict(name=f"affine_refit_{m}", module="transforms", cls="AffineTransform", func=m,
+                      inputs=[(arg, "V"), ("mean0", "V"), ("std0", "V"), ("mean", "V"), ("std", "V")],
+                      pre_methods=[("__init__", {"xp": ModV("xp"), "dtype": NoneV()}, None),
+                                   ("fit", {"x": V("xfit0")}, {"x.mean(0)": V("mean0"), "x.std(0)": V("std0")}),
+                                   ("fit", {"x": V("xfit")}, {"x.mean(0)": V("mean"), "x.std(0)": V("std")})],
+                      params={arg: V(arg)}, outputs={"y": "return[0]", "logj": "return[1]"}))
     T.append(dict(name="affine_fit", module="transforms", cls="AffineTransform", func="fit",
                   inputs=[("x", "V"), ("mean", "V"), ("std", "V")],
                   pre_methods=[("__init__", {"xp": ModV("xp"), "dtype": NoneV()}, None)],
